@@ -1,4 +1,7 @@
 #!/usr/bin/env bash
-# runs the repository's own suite with the verif tag off (and a build with it on)
+# Runs the repository's own suite with the verif tag off (and a build with it on) and compares
+# the result with /root/.vp/BASELINE.json: every baseline test must pass, a skip is not a pass.
 export GOFLAGS=-mod=mod GOPROXY=off GOSUMDB=off GOTOOLCHAIN=local
-cd /repo && go build ./... && go vet -tags verif . >/dev/null 2>&1; go build -tags verif ./... && go test -count=1 ./... 2>&1 | tail -5
+cd /repo && go build ./... && go build -tags verif ./... || exit 1
+go test -json -vet=off -count=1 -timeout 25m ./... > /tmp/repotest.json 2>&1
+python3 /verif/tools/baselinecmp.py /tmp/repotest.json
